@@ -79,9 +79,9 @@ func init() {
 		Plan:     plan([]run.PlanItem{pi("faults", 24), pi("rewards", 2), pi("mix", 2), pi("commit-life", 2), pi("empty-pools", 3)}, []run.PlanItem{pi("faults", 72), pi("rewards", 12), pi("mix", 12), pi("commit-life", 12), pi("forced", 8), pi("orders", 8), pi("empty-pools", 6)}),
 		Assume:   []string{boundsAssume}}
 	run.Props["C19"] = &run.PropSpec{ID: "C19", Level: "fault_enumeration",
-		Rule:     "one evaluation = one (replica, block) comparison of AppHash + every tx result (code, data, gas, log, events) + block events as a multiset against the primary; replicas: un-probed plain, restarted after every height, crashed between FinalizeBlock and Commit at every height; plus (scenario crash-kill) a separate replaying process over an on-disk LevelDB killed with SIGKILL at arbitrary moments and restarted until it reaches the end: every hash it reports and the height / hash it restarts at are compared with the primary; thorough tier also the race-detector build under concurrent CheckTx / Query; distinct = (replica, height, AppHash)",
+		Rule:     "one evaluation = one (replica, block) comparison of AppHash + every tx result (code, data, gas, log, events) + block events as a multiset against the primary; replicas: un-probed plain, restarted after every height, crashed between FinalizeBlock and Commit at every height; plus (scenario crash-kill) a separate replaying process over an on-disk LevelDB killed with SIGKILL at arbitrary moments and restarted until it reaches the end: every hash it reports and the height / hash it restarts at are compared with the primary; plus (scenario race, one instance in the quick tier, three longer ones in the thorough tier) a race-detector build of the application producing blocks while other goroutines run CheckTx, Simulate (full handler execution of fourteen message types) and gRPC queries against it; distinct = (replica, height, AppHash)",
 		Monitors: func() []mon.Monitor { return []mon.Monitor{mon.NewC19()} },
-		Plan:     plan([]run.PlanItem{pi("replicas", 8), pi("faults", 3), pi("orders", 2), pi("commit-life", 2), pi("forced", 2), pi("crash-kill", 3)}, []run.PlanItem{pi("replicas", 32), pi("faults", 12), pi("orders", 6), pi("commit-life", 6), pi("forced", 6), pi("vault", 4), pi("rewards", 4), pi("crash-kill", 8), pi("race", 3)}),
+		Plan:     plan([]run.PlanItem{pi("replicas", 8), pi("faults", 3), pi("orders", 2), pi("commit-life", 2), pi("forced", 2), pi("crash-kill", 3), pi("race", 1)}, []run.PlanItem{pi("replicas", 32), pi("faults", 12), pi("orders", 6), pi("commit-life", 6), pi("forced", 6), pi("vault", 4), pi("rewards", 4), pi("crash-kill", 8), pi("race", 3)}),
 		Assume:   []string{boundsAssume, "different process-level randomisation is obtained from separate app objects in one process (Go randomises every map range independently)"}}
 	run.Props["C14"] = &run.PropSpec{ID: "C14", Level: "exploration",
 		Rule:     "one evaluation = one successful vest / claim / cancel / vest-now transaction of an observed account checked against the monitor's own linear-schedule reference (entries and balances snapshotted by the pre-message probe, compared in the post-tx probe), or one conservation equation; distinct = (op, account, entries before -> after) never seen before",
